@@ -13,6 +13,7 @@ is executed.  Constructs outside the interpreted subset raise AbsError (the call
 specification of each operation.
 """
 import ast
+from .terms import crepr
 import copy
 
 from .dataflow import unawait
@@ -841,7 +842,7 @@ class Interp(object):
             return [(st, True)]
         if a[0] == "C" and b[0] == "C":
             return [(st, a[1] == b[1])]
-        if a[0] == "C" or (b[0] != "C" and repr(a) > repr(b)):
+        if a[0] == "C" or (b[0] != "C" and crepr(a) > crepr(b)):
             a, b = b, a
         return self._decide(st, ("eq", a, b))
 
